@@ -192,3 +192,109 @@ func VH_C20_history() {
 		}()
 	}
 }
+
+// Large ranges: the scan loop of Allocate / Allocate_inRange has to be able to walk a whole cycle, whatever the
+// size of the range. The live set is given intensionally (vrt.MapFillRange: every slot of [0, r) except one), so a
+// range of 65 536 or more identifiers with all but one live is one path of r loop iterations; minValue stays
+// symbolic. Cases: r = 257 and just below, at and above 2^16 (also 2^8, 2^15, 70000 and 2^17 at the thorough tier) x scan offset 0 / 1 / r/2 / r-1
+// x the free slot being the farthest one from the offset, the one before it, the nearest one, or none at all.
+func c20largeR() int64 {
+	rs := []int64{257, 65535, 65536, 65537}
+	if vrt.Thorough() {
+		rs = append(rs, 255, 256, 32767, 32768, 70000, 131071, 131072, 131073)
+	}
+	return rs[vrt.Choose("rsel", 0, len(rs)-1)]
+}
+
+func c20large(r int64) (g *IDGenerator, free int64) {
+	g = &IDGenerator{}
+	g.minValue = vrt.I64("min")
+	vrt.Assume(g.minValue >= -(1<<40) && g.minValue <= 1<<40)
+	g.maxValue = g.minValue + r - 1
+	g.valueRange = r
+	offs := []int64{0, 1, r / 2, r - 1}
+	g.offset = offs[vrt.Choose("offsel", 0, 3)]
+	switch vrt.Choose("freesel", 0, 3) {
+	case 0:
+		free = (g.offset + r - 1) % r // farthest from the scan offset: r-1 live slots are stepped over first
+	case 1:
+		free = (g.offset + r - 2) % r
+	case 2:
+		free = g.offset
+	default:
+		free = -1 // every identifier live
+	}
+	g.usedMap = make(map[int64]bool)
+	vrt.MapFillRange(g.usedMap, 0, r, free)
+	return g, free
+}
+
+func VH_C20_allocate_large() {
+	vrt.Unwind(400000)
+	{
+		r := c20largeR()
+		func() {
+			g, free := c20large(r)
+			id, err := g.Allocate()
+			if free < 0 {
+				vrt.Assert(err != nil, "large range: Allocate fails when every id is live")
+			} else {
+				vrt.Assert(err == nil, "large range: Allocate fails only when every id is live")
+				vrt.Assert(id == g.minValue+free, "large range: Allocate returns the one free id")
+				vrt.Assert(vrt.MapHas(g.usedMap, free), "large range: id is live afterwards")
+			}
+			vrt.Assert(g.offset >= 0 && g.offset < r, "large range: 0 <= offset < valueRange afterwards")
+		}()
+	}
+}
+
+// every identifier live, one of them freed, then a plain allocation: it succeeds and returns the freed identifier
+func VH_C20_free_then_allocate_large() {
+	vrt.Unwind(400000)
+	{
+		r := c20largeR()
+		func() {
+			g := &IDGenerator{}
+			g.minValue = vrt.I64("min")
+			vrt.Assume(g.minValue >= -(1<<40) && g.minValue <= 1<<40)
+			g.maxValue = g.minValue + r - 1
+			g.valueRange = r
+			offs := []int64{0, 1, r / 2, r - 1}
+			g.offset = offs[vrt.Choose("offsel", 0, 3)]
+			g.usedMap = make(map[int64]bool)
+			vrt.MapFillRange(g.usedMap, 0, r, -1)
+			dist := []int64{0, 1, r - 2, r - 1}
+			free := (g.offset + dist[vrt.Choose("distsel", 0, 3)]) % r
+			g.FreeID(g.minValue + free)
+			id, err := g.Allocate()
+			vrt.Assert(err == nil, "large range: a freed identifier becomes allocatable again")
+			vrt.Assert(id == g.minValue+free, "large range: Allocate returns the freed id")
+			_, err = g.Allocate()
+			vrt.Assert(err != nil, "large range: Allocate fails again once the freed id is re-allocated")
+		}()
+	}
+}
+
+// Allocate_inRange over a large range: the search starts at a and may stop early (at b or at the previous offset),
+// but whatever it returns is the free identifier, within bounds
+func VH_C20_allocate_inrange_large() {
+	vrt.Unwind(400000)
+	{
+		r := c20largeR()
+		func() {
+			g, free := c20large(r)
+			as := []int64{0, r + 1, -1, 1, r - 1, r}
+			na := 3
+			if vrt.Thorough() {
+				na = len(as)
+			}
+			a := as[vrt.Choose("asel", 0, na-1)]
+			id, err := g.Allocate_inRange(a, -5) // an upper search bound the scan never meets
+			if err == nil {
+				vrt.Assert(free >= 0 && id == g.minValue+free, "large range: Allocate_inRange returns a free id")
+				vrt.Assert(id >= g.minValue && id <= g.maxValue, "large range: Allocate_inRange id within bounds")
+			}
+			vrt.Assert(g.offset >= 0 && g.offset < r, "large range: 0 <= offset < valueRange after Allocate_inRange")
+		}()
+	}
+}
